@@ -142,6 +142,50 @@ pub fn check<I: Probes>(vt: &'static Vt<I>, ctx: &Ctx) -> DeclReport {
     if ctx.case.is_some() && ctx.only.is_none() {
         return rep;
     }
+    // the texts travel inside FromStr / TryFrom<&str> errors too: an input the constructor admits must not come
+    // back from those entry points described as forbidden (case mappings change the number of chars, so the
+    // raw text may look too short or too long while the sanitized value is fine)
+    if I::KIND == Kind::Str {
+        let mut probes: Vec<String> = vec![];
+        for n in model::len_bounds(m).into_iter().filter(|n| *n <= 64) {
+            for len in n.saturating_sub(3)..=n + 2 {
+                for fill in ["ß", "ﬁ", "İ", "ŉ", "a", "Z "] {
+                    let core: String = fill.repeat(len);
+                    probes.push(core.clone());
+                    probes.push(format!(" {core}\u{2003}"));
+                    probes.push(format!("{core}a"));
+                }
+            }
+        }
+        probes.sort();
+        probes.dedup();
+        let entries: Vec<(&str, fn(&str) -> Result<I, ErrR>)> = [("FromStr", vt.from_str_s), ("TryFrom<&str>", vt.try_from_str)].into_iter().filter_map(|(n, f)| f.map(|f| (n, f))).collect();
+        for p in &probes {
+            if entries.is_empty() {
+                break;
+            }
+            let raw = I::from_string_(p.clone());
+            let Ok(Ok(_)) = no_panic(|| (vt.ctor)(raw.clone())) else { continue };
+            for (name, f) in &entries {
+                rep.evaluations += 1;
+                rep.nontrivial += 1;
+                if let Ok(Err(e)) = no_panic(|| f(p)) {
+                    let text = match &e {
+                        ErrR::Ix(i) => err_text(*i).unwrap_or_default(),
+                        ErrR::Custom(_) => String::new(),
+                    };
+                    push(
+                        &mut rep,
+                        format!("C16|{}|admitted-value-described-as-forbidden|via-{name}|sans={}", kind_name::<I>(), crate::props::c01::san_names(m)),
+                        json!({"input": p, "error": e.show(), "message": text}),
+                        "Ok: the constructor admits this input".into(),
+                        format!("Err({}) from {name}: {text}", e.show()),
+                    );
+                }
+            }
+        }
+        rep.class("string-entry-point-probes");
+    }
     for (ix, val) in vals.iter().enumerate() {
         let kind = val.kind_name();
         let is_bound = matches!(val, Val::Greater(_) | Val::GreaterEq(_) | Val::Less(_) | Val::LessEq(_) | Val::LenCharMin(_) | Val::LenCharMax(_));
